@@ -14,6 +14,12 @@ Definition oneg (a : oz) : oz := option_map Z.opp a.
 Definition ocmp (f : Z -> Z -> bool) (a b : oz) : option bool :=
   match a, b with Some x, Some y => Some (f x y) | _, _ => None end.
 Definition zneb (a b : Z) : bool := negb (Z.eqb a b).
+(* `a and b` / `a or b` on conditions, left to right with short circuit (the right operand is not evaluated - cannot raise -
+   when the left one decides); a chained comparison `x <= y <= z` is `x <= y and y <= z` *)
+Definition oandb (a b : option bool) : option bool :=
+  match a with Some true => b | Some false => Some false | None => None end.
+Definition oorb (a b : option bool) : option bool :=
+  match a with Some true => Some true | Some false => b | None => None end.
 
 (* numpy basic slicing v[lo:hi] of a 1-d array of length len, step 1: the index range after CPython's
    clamping (PySlice_AdjustIndices), as (start, length) *)
